@@ -87,6 +87,12 @@ def oracle(c, o):
             if seq not in delivered:
                 out.append(dict(clause="every live event with timestamp <= end_time is delivered", seq=seq, time=t))
                 break
+    # a process started by a daemon event stays daemon (daemon events alone never keep the run alive)
+    for p in pops:
+        if p[3] == 1 and p[11] is not None and p[11][1] is not None and p[11][0] != p[11][1]:
+            out.append(dict(clause="daemon events alone never keep the run alive: the continuation of a process does not carry the daemon flag of the event that started it",
+                            pop=p[:6], continuation_daemon=p[11][0], origin_daemon=p[11][1]))
+            break
     # auto-termination
     if c["end"] is None:
         for p in pops:
